@@ -12,7 +12,6 @@
 import Manticore.Model.C09
 import Manticore.Lemmas.DNS
 import Manticore.Lemmas.C09
-import Manticore.Props.C09.Consts
 namespace Manticore.C09
 open Manticore Manticore.Spec.DNS
 
